@@ -226,6 +226,16 @@ Theorem C16_colorspace_roundtrip : forall cs j lossless ids, cs <> CS_UNKNOWN ->
 Proof. exact colorspace_roundtrip. Qed.
 Print Assumptions C16_colorspace_roundtrip.
 
+(* (the decision is the tree generated from the C text of default_decompress_parms: ddp_cases, in the order of its tests) *)
+Theorem C16_colorspace_by_ids :
+  decide_colorspace 3 hinfo_init false [1; 2; 3] = CS_YCbCr /\
+  (forall lossless, decide_colorspace 3 hinfo_init lossless [82; 71; 66] = CS_RGB) /\
+  (forall lossless ids, decide_colorspace 1 hinfo_init lossless ids = CS_GRAY) /\
+  (forall lossless ids, decide_colorspace 4 hinfo_init lossless ids = CS_CMYK) /\
+  (forall h lossless ids, decide_colorspace 2 h lossless ids = CS_UNKNOWN /\ decide_colorspace 5 h lossless ids = CS_UNKNOWN).
+Proof. exact colorspace_by_ids. Qed.
+Print Assumptions C16_colorspace_by_ids.
+
 Theorem C16_density_roundtrip : forall cs j, writes_jfif cs = true ->
   let h := header_info cs j in
   h_saw_jfif h = true /\ h_unit h = j_unit j /\ h_xd h = j_xd j /\ h_yd h = j_yd j /\
